@@ -1,10 +1,14 @@
 (* C13 -- mesh construction, merging, reading and order elevation keep meshes valid: property theorems only.
-   Subjects: hand models of optimism/Mesh.py (create_structured_mesh_data, create_edges, combine_mesh and helpers) and of
-   the reader index arithmetic (ReadExodusMesh.py), tied to /repo by exact comparison on every run (tools/props/c13.py). *)
+   Subjects: hand models of optimism/Mesh.py (create_structured_mesh_data, create_edges, combine_mesh and helpers,
+   create_higher_order_mesh_from_simplex_mesh: connectivity write log and stacked coordinate array) and of the readers as
+   functions of the whole file content (ReadExodusMesh.py, ReadMesh.py), tied to /repo by exact comparison (integers) and
+   binary64 execution (coordinates) on every run (tools/props/c13.py). *)
 From Coq Require Import List Arith ZArith Reals.
 From OV.base Require Import Num.
-From OV.model Require Import M_C13_Struct M_C13_Edges M_C13_Combine M_C13_Read M_C13_Elevate M_C13_Coords.
-From OV.proofs Require Import L_C13_Struct L_C13_Edges L_C13_Combine L_C13_Read L_C13_Top L_C13_Elevate L_C13_Elev2 L_C13_Elev3 L_C13_Coords.
+From Coq Require Import QArith Qreals.
+Close Scope Q_scope.
+From OV.model Require Import M_C13_Struct M_C13_Edges M_C13_Combine M_C13_Read M_C13_Elevate M_C13_Coords M_C13_ElevMesh M_C13_ReadFile.
+From OV.proofs Require Import L_C13_Struct L_C13_Edges L_C13_Combine L_C13_Read L_C13_Top L_C13_Elevate L_C13_Elev2 L_C13_Elev3 L_C13_Coords L_C13_ElevMesh L_C13_ReadFile.
 Import ListNotations.
 
 (* ---- structured generator: in-range connectivity using every node, counter-clockwise elements of positive area,
@@ -122,6 +126,72 @@ Proof.
   exact permute_tri6_faces.
 Qed.
 
+(* ---- readers, THE WHOLE FILE (model/M_C13_ReadFile.v: read_exodus maps the file content -- 1-based block connectivity records,
+        node-set records, (element, side) records, name records with empty names -- to the mesh's connectivity, blocks, node sets,
+        side sets and simplexNodesOrdinals; six = 6-node triangles).  [exo_wf]: ids in the file are in range (1..nnodes, 1..nelems,
+        sides 1..3), rows have 3 / 6 entries, one name per record, element and side records of a side set have equal length.
+        Nothing is lost and every index is in range: *)
+Theorem C13_read_exodus_elements : forall six aB aN aS f, exo_wf six f ->
+  let r := read_exodus six aB aN aS f in
+  length (rm_conns r) = list_sum (map (@length _) (ef_blocks f))
+  /\ (forall b blk i row, nth_error (ef_blocks f) b = Some blk -> nth_error blk i = Some row ->
+        nth_error (rm_conns r) (block_first (ef_blocks f) b + i) = Some (if six then permute_tri6 (to0 row) else to0 row))
+  /\ Forall (Forall (fun n => n < ef_nnodes f)) (rm_conns r)
+  /\ Forall (fun row => length row = if six then 6 else 3) (rm_conns r).
+Proof. intros six aB aN aS f H. cbv zeta. pose proof (read_exodus_elements six aB aN aS f H) as T. destruct six; exact T. Qed.
+(* blocks / node sets / side sets under PAIRWISE DISTINCT final names (given names, "block_<i+1>" etc. for empty ones) *)
+Theorem C13_read_exodus_blocks : forall six aB aN aS f, exo_wf six f -> NoDup (final_names aB 0 (ef_bnames f)) ->
+  let r := read_exodus six aB aN aS f in
+  rm_blocks r = combine (final_names aB 0 (ef_bnames f)) (read_block_ranges (ef_blocks f))
+  /\ (forall b blk k, nth_error (ef_blocks f) b = Some blk -> nth_error (final_names aB 0 (ef_bnames f)) b = Some k ->
+        dget (rm_blocks r) k = Some (seq (block_first (ef_blocks f) b) (length blk)))
+  /\ concat (map snd (rm_blocks r)) = seq 0 (length (rm_conns r))
+  /\ length (rm_blocks r) = length (ef_blocks f).
+Proof. exact read_exodus_blocks. Qed.
+Theorem C13_read_exodus_nodesets : forall six aB aN aS f, exo_wf six f -> NoDup (final_names aN 0 (ef_nsnames f)) ->
+  let r := read_exodus six aB aN aS f in
+  length (rm_nodesets r) = length (ef_nodesets f)
+  /\ forall i l k, nth_error (ef_nodesets f) i = Some l -> nth_error (final_names aN 0 (ef_nsnames f)) i = Some k ->
+       dget (rm_nodesets r) k = Some (to0 l) /\ length (to0 l) = length l /\ map S (to0 l) = l
+       /\ Forall (fun n => n < ef_nnodes f) (to0 l).
+Proof. exact read_exodus_nodesets. Qed.
+Theorem C13_read_exodus_sidesets : forall six aB aN aS f, exo_wf six f -> NoDup (final_names aS 0 (ef_ssnames f)) ->
+  let r := read_exodus six aB aN aS f in
+  length (rm_sidesets r) = length (ef_sidesets f)
+  /\ forall i es ss k, nth_error (ef_sidesets f) i = Some (es, ss) -> nth_error (final_names aS 0 (ef_ssnames f)) i = Some k ->
+       dget (rm_sidesets r) k = Some (read_sideset es ss) /\ length (read_sideset es ss) = length es
+       /\ map (fun p => S (fst p)) (read_sideset es ss) = es /\ map (fun p => S (snd p)) (read_sideset es ss) = ss
+       /\ Forall (fun p => fst p < length (rm_conns r) /\ snd p < 3) (read_sideset es ss).
+Proof. exact read_exodus_sidesets. Qed.
+Theorem C13_read_exodus_simplex : forall six aB aN aS f,
+  let r := read_exodus six aB aN aS f in
+  NoDup (rm_simplex r)
+  /\ forall x, In x (rm_simplex r) <->
+       if six then exists row, In row (read_conns (ef_blocks f)) /\ In x (firstn 3 row) else x < ef_nnodes f.
+Proof. exact read_exodus_simplex. Qed.
+(* the distinct-names hypothesis is NEEDED: a well-formed 3-node file with two blocks, the first NAMED like the auto-generated
+   name of the second ("block_2", id 7), the second unnamed: the reader keeps one block entry and element 0 is in no block
+   (replayed on the implementation on every run; reported, see tools/props/c13.py LEVEL_TEXT) *)
+Theorem C13_read_exodus_name_clash_refuted :
+  exo_wf false clash_file /\ (forall i, clash_auto i <> 0%Z)
+  /\ let r := read_exodus false clash_auto clash_auto clash_auto clash_file in
+     length (rm_conns r) = 2 /\ rm_blocks r = [(7%Z, [1])] /\ ~ In 0 (concat (map snd (rm_blocks r))).
+Proof. exact read_exodus_name_clash_refuted. Qed.
+(* JSON reader: indices pass through unchanged; a side set [elements, sides] becomes the list of pairs, nothing lost *)
+Theorem C13_read_json_sidesets : forall ss,
+  map fst (read_json_sidesets ss) = map fst ss
+  /\ forall k es sd, In (k, (es, sd)) ss -> length es = length sd ->
+       In (k, combine es sd) (read_json_sidesets ss) /\ length (combine es sd) = length es
+       /\ map fst (combine es sd) = es /\ map snd (combine es sd) = sd.
+Proof. exact read_json_sidesets_spec. Qed.
+Example C13_read_exodus_nonvacuous :
+  exo_wf true sample_file /\ NoDup (final_names clash_auto 0 (ef_bnames sample_file))
+  /\ NoDup (final_names clash_auto 0 (ef_nsnames sample_file)) /\ NoDup (final_names clash_auto 0 (ef_ssnames sample_file))
+  /\ rm_conns (read_exodus true clash_auto clash_auto clash_auto sample_file) = [[0; 3; 1; 5; 4; 2]; [1; 7; 6; 4; 8; 2]].
+Proof. exact read_exodus_nonvacuous. Qed.
+(* NOT PROVED (readers): the netCDF / JSON file layer (bytes -> records) and name decoding are outside the model; block_maps
+   (slices of elem_num_map) and coordinates are tested only. *)
+
 (* ---- order elevation, numbering only: the ids handed to the slots (vertex), (edge e, k < p-1), (element t, k < nInt) are
         exactly 0 .. nV + nE(p-1) + nT*nInt - 1, each once (no duplicate, no unused id), and the right element receives the
         edge's ids in reversed order *)
@@ -222,11 +292,71 @@ Theorem C13_elevate_affine_vertex_interior :
   /\ (forall (X N0 N1 : nat -> R) tri t k,
         interior_coord X N0 N1 tri t k = affine_image (N0 k) (N1 k) (X (tri t 0)) (X (tri t 1)) (X (tri t 2))).
 Proof. split; [exact affine_placement_vertex | exact affine_placement_interior]. Qed.
-(* NOT PROVED: one closed statement quantifying over the whole elevated mesh (for all t, pos: coords[elevated[t][pos]] is the
-   affine image of reference node pos); it is the composition of C13_elevate_conform / C13_elevate_vertex_interior (which id sits
-   where), C13_elevate_coord_rows (which coordinate an id has) and the three placement theorems above, with the certificates
-   supplying delta and delta'.  Binary64 rounding of the matrix products is covered by the correspondence only. *)
+(* ---- order elevation, THE WHOLE ELEVATED MESH in one closed statement.  Objects (model/M_C13_ElevMesh.v): [elevated] the
+        connectivity table, [em_coord] the stacked coordinate array (one component) computed from the function's inputs only
+        (vertex coordinates X, simplex connectivity, 1-D interior parameters s1d, reference coordinates ref, position tables pe),
+        [em_affine t pos] the affine image ref[pos].0 X[c0] + ref[pos].1 X[c1] + (1 - ref[pos].0 - ref[pos].1) X[c2] of reference
+        node pos in element t, [em_nnodes] = nV + nE m + nT nI.  Mesh hypotheses: rows of three vertex ids < nV, no degenerate side,
+        no directed vertex pair twice (consistently oriented manifold triangulation).  Table hypotheses [ref_good]: vertex positions
+        at the unit points, face position k of side s within delta of the 1-D parameter s1d k on that side; 1-D parameters
+        symmetric up to delta'.  Conclusion, for EVERY element t and EVERY reference position pos: the stored id is a node of the
+        mesh and its stored coordinate is the affine image of the reference node, up to
+        em_bound t = delta (|X0-X2| + |X1-X2|) + delta' (|X0-X1| + |X1-X2| + |X2-X0|)   (exactly 0 at vertex and interior positions). *)
+Theorem C13_elevated_mesh_affine : forall (X s1d : nat -> R) (ref : nat -> R * R) pe nV m conns (delta delta' : R),
+  pe_okb pe m = true -> NoDup (all_faces conns) -> (forall f, In f (all_faces conns) -> fst f <> snd f) ->
+  Forall (fun c => length c = 3) conns -> Forall (Forall (fun i => i < nV)) conns ->
+  ref_good ref pe s1d delta -> (forall k, k < m -> (Rabs (s1d k + s1d (m - 1 - k)%nat - 1) <= delta')%R) ->
+  (0 <= delta)%R -> (0 <= delta')%R ->
+  forall t pos, t < length conns -> pos < pe_n pe ->
+    let id := nth pos (nth t (elevated pe nV m conns) []) 0 in
+    id < em_nnodes pe nV m conns
+    /\ (Rabs (@em_coord R NumR X s1d ref pe nV m conns id - @em_affine R NumR X ref conns t pos) <= em_bound X conns delta delta' t)%R.
+Proof. exact elevated_node_affine. Qed.
+(* the same with every table hypothesis discharged by ONE computed certificate [elev_cert_okb] (evaluated in Coq on the
+   implementation's tables, exact rationals of the binary64 entries, for every order 2..5 with and without bubble on every run):
+   ref and s1d are then the real values of the implementation's own tables and delta = delta' = tol (1e-14). *)
+Theorem C13_elevated_mesh_certified : forall pe m refq faces nodes in1d tol conns nV (X : nat -> R),
+  elev_cert_okb pe m refq faces nodes in1d tol = true ->
+  NoDup (all_faces conns) -> (forall f, In f (all_faces conns) -> fst f <> snd f) ->
+  Forall (fun c => length c = 3) conns -> Forall (Forall (fun i => i < nV)) conns ->
+  forall t pos, t < length conns -> pos < pe_n pe ->
+    let id := nth pos (nth t (elevated pe nV m conns) []) 0 in
+    id < em_nnodes pe nV m conns
+    /\ (Rabs (@em_coord R NumR X (s1d_of_q nodes in1d) (ref_of_q refq) pe nV m conns id - @em_affine R NumR X (ref_of_q refq) conns t pos)
+        <= em_bound X conns (Q2R tol) (Q2R tol) t)%R.
+Proof. exact elevated_mesh_certified. Qed.
+(* shape of the whole table: one row per element, pe_n entries per row, every entry in range, every node id stored somewhere
+   (no unused node, given that every vertex is used), vertex columns reproduce the simplex connectivity; and the coordinate
+   column has one entry per node, entry id being em_coord id *)
+Theorem C13_elevated_mesh_shape : forall conns pe nV m,
+  pe_okb pe m = true -> NoDup (all_faces conns) -> (forall f, In f (all_faces conns) -> fst f <> snd f) ->
+  Forall (fun c => length c = 3) conns -> Forall (Forall (fun i => i < nV)) conns ->
+  length (elevated pe nV m conns) = length conns
+  /\ Forall (fun row => length row = pe_n pe /\ Forall (fun id => id < em_nnodes pe nV m conns) row) (elevated pe nV m conns)
+  /\ ((forall n, n < nV -> exists c, In c conns /\ In n c) ->
+      forall id, id < em_nnodes pe nV m conns ->
+      exists t pos, t < length conns /\ pos < pe_n pe /\ nth pos (nth t (elevated pe nV m conns) []) 0 = id)
+  /\ (forall t i p, t < length conns -> nth_error (pe_vertex pe) i = Some p ->
+      p < pe_n pe /\ nth p (nth t (elevated pe nV m conns) []) 0 = em_tri conns t i).
+Proof. exact elevated_mesh_shape. Qed.
+Theorem C13_elevated_coords_column : forall (X s1d : nat -> R) ref pe nV m conns,
+  length (@em_coords R NumR X s1d ref pe nV m conns) = em_nnodes pe nV m conns
+  /\ forall id d, id < em_nnodes pe nV m conns ->
+       nth id (@em_coords R NumR X s1d ref pe nV m conns) d = @em_coord R NumR X s1d ref pe nV m conns id.
+Proof. intros. split; [apply em_coords_length | intros; now apply em_coords_nth]. Qed.
+(* NOT PROVED: binary64 rounding of the two matrix products (np.dot(A, coords[edgeConn]) and np.dot(A, coords[triConn])): the
+   theorems are over R; the binary64 instance of the SAME definition em_coords is executed in Coq and compared with the
+   implementation's coordinate array entry by entry (tolerance 4 ulp-scale units) on every run.  Geometric non-degeneracy of the
+   elevated elements (positive Jacobian at the quadrature points) is not addressed. *)
 
+Example C13_elevated_mesh_nonvacuous :
+  elev_cert_okb pe_quadratic 1 [(1, 0); (1 # 2, 1 # 2); (0, 1); (1 # 2, 0); (0, 1 # 2); (0, 0)]%Q
+                [[0; 1; 2]; [2; 4; 5]; [5; 3; 0]] [0; 1 # 2; 1]%Q [1] 0%Q = true
+  /\ NoDup (all_faces (struct_conns 3 4)) /\ (forall f, In f (all_faces (struct_conns 3 4)) -> fst f <> snd f)
+  /\ Forall (fun c => length c = 3) (struct_conns 3 4) /\ Forall (Forall (fun i => i < 12)) (struct_conns 3 4)
+  /\ (forall n, n < 12 -> exists c, In c (struct_conns 3 4) /\ In n c)
+  /\ nth 1 (nth 0 (elevated pe_quadratic 12 1 (struct_conns 3 4)) []) 0 = 12.
+Proof. exact elevated_mesh_nonvacuous. Qed.
 Example C13_nonvacuous : exists (xs ys : nat -> R),
   (forall i, S i < 3 -> (xs i < xs (S i))%R) /\ (forall j, S j < 4 -> (ys j < ys (S j))%R)
   /\ length (struct_conns 3 4) = 12 /\ NoDup (all_faces (struct_conns 3 4)).
@@ -243,3 +373,6 @@ Print Assumptions C13_elevate_writes_survive.
 Print Assumptions C13_elevate_conform.
 Print Assumptions C13_elevate_every_entry_written.
 Print Assumptions C13_elevate_affine_right.
+Print Assumptions C13_elevated_mesh_certified.
+Print Assumptions C13_elevated_mesh_shape.
+Print Assumptions C13_read_exodus_sidesets.
